@@ -2,16 +2,16 @@
    then whole models (encode = _encode_vars + every constraint with the counter threaded). *)
 From Coq Require Import List ZArith Bool Lia.
 From SV Require Import C06.CpAst C06.CpAstProofs C06.CpEnc C06.EncBasics C06.EncPairwise C06.EncFrame
-                       C06.EncLinear C06.EncLinear2 C06.EncSum C06.EncSum2 C06.EncCircuit C06.EncCircuit2.
+                       C06.EncLinear C06.EncLinear2 C06.EncSum C06.EncSum2 C06.EncCircuit C06.EncCircuit2 C06.EncCumul.
 Import ListNotations.
 Open Scope Z_scope.
 
-(* the constraint kinds whose encoding is proved sound and complete here; cumulative is
-   checked per explored case by CpCheck.cnf_projection_ok instead *)
+(* the constraint kinds whose encoding is proved sound and complete here: by now every kind the encoder accepts
+   (the predicate is kept so that the statements say explicitly what they cover) *)
 Definition enc_proved (c : cstr) : bool :=
   match c with
-  | CCumulative _ _ => false
-  | _ => true
+  | CAllDiff _ | CEqConst _ _ | CNeConst _ _ | CEqVar _ _ | CNeVar _ _ | CLin _ _ _
+  | CSumEq _ _ | CSumLe _ _ | CSumGe _ _ | CCircuit _ | CNoOverlap _ | CCumulative _ _ => true
   end.
 
 (* ------------------------------------------------------------------ framing of the encodings without auxiliaries *)
@@ -105,6 +105,8 @@ Proof.
   - split; [apply enc_sum_ge_counter|]. apply enc_sum_ge_below; [exact Hn|exact Hv].
   - split; [apply enc_circuit_counter|]. apply enc_circuit_below; [exact Hn|exact Hv].
   - split; [lia|]. apply enc_no_overlap_below. intros p Hp'. apply Hv. apply in_map. exact Hp'.
+  - split; [apply enc_cumulative_counter|]. apply enc_cumulative_below; [exact Hn|].
+    intros p Hp'. apply Hv. apply (in_map (fun q : var * Z * Z => fst (fst q))). exact Hp'.
 Qed.
 
 Lemma task_vals_bv b s ts : (forall v, In v (map fst ts) -> aval s v = bv b v) ->
@@ -113,12 +115,25 @@ Proof.
   intros H. unfold task_vals. apply map_ext_in. intros p Hp. rewrite H; [reflexivity|]. apply in_map. exact Hp.
 Qed.
 
+Lemma ctask_vals_bv b s ts : (forall v, In v (map (fun p : var * Z * Z => fst (fst p)) ts) -> aval s v = bv b v) ->
+  ctask_vals s ts = cvals b ts.
+Proof.
+  intros H. unfold ctask_vals, cvals. apply map_ext_in. intros p Hp. rewrite H; [reflexivity|].
+  apply (in_map (fun q : var * Z * Z => fst (fst q))). exact Hp.
+Qed.
+
+Lemma wf_cons_cumulative ts cap : wf_cons (CCumulative ts cap) = true -> (forall p, In p ts -> 0 <= snd p) /\ 0 <= cap.
+Proof.
+  cbn [wf_cons]. rewrite andb_true_iff, forallb_forall. intros [H1 H2]. split; [|apply Z.leb_le; exact H2].
+  intros p Hp. apply Z.leb_le. apply H1. exact Hp.
+Qed.
+
 (* what the clauses of a constraint mean, read on an integer assignment that agrees with the decoded values *)
-Lemma cons_sound b s n c : enc_proved c = true -> 0 < n ->
+Lemma cons_sound b s n c : enc_proved c = true -> wf_cons c = true -> 0 < n ->
   (forall v, In v (cons_vars c) -> VOK b v) -> (forall v, In v (cons_vars c) -> aval s v = bv b v) ->
   models b (fst (enc_constraint n c)) -> holds s c.
 Proof.
-  intros Hp Hn Hv Hs Hm. destruct c as [vs|v k|v k|v w|v w|l r ne|vs t|vs t|vs t|vs|ts|ts cap]; try discriminate Hp;
+  intros Hp Hw Hn Hv Hs Hm. destruct c as [vs|v k|v k|v w|v w|l r ne|vs t|vs t|vs t|vs|ts|ts cap]; try discriminate Hp;
     cbn [enc_constraint fst cons_vars holds] in *.
   - rewrite (map_aval_bv b s vs Hs). apply (enc_all_different_ok b vs Hv). exact Hm.
   - rewrite Hs by (left; reflexivity). apply (enc_eq_const_ok b v k); [apply Hv; left; reflexivity|exact Hm].
@@ -135,13 +150,16 @@ Proof.
   - rewrite (map_aval_bv b s vs Hs). apply (enc_circuit_sound b n vs Hn Hv Hm).
   - rewrite (task_vals_bv b s ts Hs). apply (enc_no_overlap_ok b ts); [|exact Hm].
     intros p Hp'. apply Hv. apply in_map. exact Hp'.
+  - rewrite (ctask_vals_bv b s ts Hs). destruct (wf_cons_cumulative ts cap Hw) as [Hd Hc].
+    apply (enc_cumulative_sound b n ts cap Hn); try assumption.
+    intros p Hp'. apply Hv. apply (in_map (fun q : var * Z * Z => fst (fst q))). exact Hp'.
 Qed.
 
-Lemma cons_complete b s n c : enc_proved c = true -> 0 < n ->
+Lemma cons_complete b s n c : enc_proved c = true -> wf_cons c = true -> 0 < n ->
   (forall v, In v (cons_vars c) -> VOK b v /\ var_below n v) -> (forall v, In v (cons_vars c) -> aval s v = bv b v) ->
   holds s c -> exists b', agree_below n b b' /\ models b' (fst (enc_constraint n c)).
 Proof.
-  intros Hp Hn Hv Hs Hh.
+  intros Hp Hw Hn Hv Hs Hh.
   assert (Hv1 : forall v, In v (cons_vars c) -> VOK b v) by (intros v Hin; apply (Hv v Hin)).
   destruct c as [vs|v k|v k|v w|v w|l r ne|vs t|vs t|vs t|vs|ts|ts cap]; try discriminate Hp;
     cbn [enc_constraint fst cons_vars holds] in *.
@@ -167,6 +185,10 @@ Proof.
   - exists b. split; [apply agree_below_refl|]. apply (enc_no_overlap_ok b ts).
     + intros p Hp'. apply Hv1. apply in_map. exact Hp'.
     + rewrite <- (task_vals_bv b s ts Hs). exact Hh.
+  - destruct (wf_cons_cumulative ts cap Hw) as [Hd Hc].
+    apply (enc_cumulative_complete b n ts cap Hn); try assumption.
+    + intros p Hp'. apply Hv. apply (in_map (fun q : var * Z * Z => fst (fst q))). exact Hp'.
+    + rewrite <- (ctask_vals_bv b s ts Hs). exact Hh.
 Qed.
 
 (* ------------------------------------------------------------------ a list of constraints *)
@@ -180,7 +202,7 @@ Proof.
 Qed.
 
 Definition cs_ok (vars : list var) (cs : list cstr) : Prop :=
-  forall c, In c cs -> enc_proved c = true /\ forall v, In v (cons_vars c) -> In v vars.
+  forall c, In c cs -> (enc_proved c = true /\ wf_cons c = true) /\ forall v, In v (cons_vars c) -> In v vars.
 
 Lemma vfit_mono n n' v : n <= n' -> vfit n v -> vfit n' v.
 Proof. unfold vfit, var_below. intros H [H1 H2]. split; lia. Qed.
@@ -191,12 +213,12 @@ Lemma enc_constraints_sound b s vars cs : forall n, 0 < n -> cs_ok vars cs ->
 Proof.
   induction cs as [|c0 tl IH]; intros n Hn Hok Hv Hs Hm c Hc; [destruct Hc|].
   rewrite enc_constraints_cons in Hm. cbn [fst] in Hm. apply models_app in Hm. destruct Hm as [Hm1 Hm2].
-  destruct (Hok c0 (or_introl eq_refl)) as [Hp Hin].
+  destruct (Hok c0 (or_introl eq_refl)) as [[Hp Hw] Hin].
   assert (Hfit : forall v, In v (cons_vars c0) -> vfit n v).
   { intros v Hv0. destruct (Hv v (Hin v Hv0)) as [[Hb _] Hbel]. split; assumption. }
   destruct (cons_below n c0 Hp Hn Hfit) as [Hle _].
   destruct Hc as [<-|Hc].
-  - apply (cons_sound b s n c0 Hp Hn); [|intros v Hv0; apply Hs; apply Hin; exact Hv0|exact Hm1].
+  - apply (cons_sound b s n c0 Hp Hw Hn); [|intros v Hv0; apply Hs; apply Hin; exact Hv0|exact Hm1].
     intros v Hv0. apply (Hv v (Hin v Hv0)).
   - apply (IH (snd (enc_constraint n c0))); try assumption; [lia| |].
     + intros c' Hc'. apply Hok. right. exact Hc'.
@@ -210,11 +232,11 @@ Lemma enc_constraints_complete s vars cs : forall b n, 0 < n -> cs_ok vars cs ->
 Proof.
   induction cs as [|c0 tl IH]; intros b n Hn Hok Hv Hs Hh.
   - exists b. split; [apply agree_below_refl|]. cbn [enc_constraints fst]. apply models_nil. exact I.
-  - destruct (Hok c0 (or_introl eq_refl)) as [Hp Hin].
+  - destruct (Hok c0 (or_introl eq_refl)) as [[Hp Hw] Hin].
     assert (Hfit : forall v, In v (cons_vars c0) -> vfit n v).
     { intros v Hv0. destruct (Hv v (Hin v Hv0)) as [[Hb _] Hbel]. split; assumption. }
     destruct (cons_below n c0 Hp Hn Hfit) as [Hle Hbelow].
-    destruct (cons_complete b s n c0 Hp Hn) as [b1 [Hag1 Hm1]].
+    destruct (cons_complete b s n c0 Hp Hw Hn) as [b1 [Hag1 Hm1]].
     + intros v Hv0. apply (Hv v (Hin v Hv0)).
     + intros v Hv0. apply Hs. apply Hin. exact Hv0.
     + apply Hh. left. reflexivity.
@@ -270,7 +292,8 @@ Record wf_props (M : cpmodel) : Prop := {
   wf_vars : forall v, In v (m_vars M) -> 0 < vbase v /\ vlb v <= vub v /\ var_below (m_next M) v;
   wf_ids : NoDup (map vid (m_vars M));
   wf_bases : bases_ok 1 (m_vars M) = Some (m_next M);
-  wf_cvars : forall c, In c (m_cons M) -> forall v, In v (cons_vars c) -> In v (m_vars M)
+  wf_cvars : forall c, In c (m_cons M) -> forall v, In v (cons_vars c) -> In v (m_vars M);
+  wf_wfc : forall c, In c (m_cons M) -> wf_cons c = true
 }.
 
 Lemma wf_model_props M : wf_model M = true -> wf_props M.
@@ -284,6 +307,7 @@ Proof.
   - exact EB.
   - intros c Hc v Hvc. rewrite forallb_forall in H3. specialize (H3 c Hc). apply andb_true_iff in H3.
     destruct H3 as [H3 _]. rewrite forallb_forall in H3. apply var_mem_In. apply H3. exact Hvc.
+  - intros c Hc. rewrite forallb_forall in H3. specialize (H3 c Hc). apply andb_true_iff in H3. apply H3.
 Qed.
 
 (* ------------------------------------------------------------------ decoded assignment *)
@@ -331,7 +355,8 @@ Definition model_proved (M : cpmodel) : bool := forallb enc_proved (m_cons M).
 
 Lemma cs_ok_of M : wf_props M -> model_proved M = true -> cs_ok (m_vars M) (m_cons M).
 Proof.
-  intros W Hp c Hc. unfold model_proved in Hp. rewrite forallb_forall in Hp. split; [apply Hp; exact Hc|].
+  intros W Hp c Hc. unfold model_proved in Hp. rewrite forallb_forall in Hp.
+  split; [split; [apply Hp; exact Hc|apply (wf_wfc M W c Hc)]|].
   apply (wf_cvars M W c Hc).
 Qed.
 
@@ -415,3 +440,7 @@ Proof.
   unfold has_empty in He. apply existsb_exists in He. destruct He as [c [Hc Hc']].
   destruct c; [|discriminate]. specialize (Hb [] Hc). discriminate.
 Qed.
+
+(* every kind is covered: the side condition model_proved is always true *)
+Lemma model_proved_all M : model_proved M = true.
+Proof. unfold model_proved. apply forallb_forall. intros c _. destruct c; reflexivity. Qed.
